@@ -22,7 +22,8 @@ GROUPS = {
     "wm": (["a", "t"], ["a", "t"], []),
     # a multi-field (virtual) B-tree index c = (a, b) next to the unique key and a member field's own index;
     # the sequential driver sends PARTIAL updates (only the fields that change), so updates touch subsets of c
-    "multi": (["k", "c", "a"], ["k", "c", "a", "t"], []),
+    # and g, an ARRAY-valued field with one posting per element (key expansion, batch update on overlap)
+    "multi": (["k", "c", "a", "g"], ["k", "c", "a", "g", "t"], []),
 }
 NVALS = 6
 # values whose key k collides: (1,3) share k=1, (2,6) share k=2
